@@ -96,8 +96,9 @@ class Ctx:
         if getattr(self, '_armed', False):
             return len(self.faulty_subscripts)
         self._armed = True
-        from .rules.er import unguarded_partial_lookups
+        from .rules.er import hashed_user_values, unguarded_partial_lookups
         bad = {id(ev.node) for g, ev, verdict in unguarded_partial_lookups(self) if verdict.startswith('unguarded')}
+        bad |= {id(ev.node) for g, ev in hashed_user_values(self)}
         if bad:
             self.faulty_subscripts |= bad
             self._graphs.clear()
@@ -210,6 +211,13 @@ class Ctx:
             g = self.graph(fid)
             for ev, roots in self.spawn_sites(g):
                 if not roots:
+                    if ev.inst.unit.cls is not self.manager_class():
+                        # a task created outside the run manager around code that is not the engine's (a callback, a user
+                        # coroutine): not a task root of the run; LK-1 reports the spawn itself
+                        note = f'foreign spawn outside the run manager at {ev.where()}: {ev.text()}'
+                        if note not in self.notes:
+                            self.notes.append(note)
+                        continue
                     raise AnalysisError(f'spawn site with unresolved coroutine at {ev.where()}: {ev.text()}')
                 for unit, call, inst in roots:
                     found.setdefault(unit.fid, []).append((g, ev))
@@ -265,6 +273,9 @@ class Ctx:
                     for x in ast.walk(n.iter):
                         if isinstance(x, ast.Attribute) and x.attr == 'nodes' and isinstance(x.value, ast.Name) and x.value.id in params:
                             ok = True
+                    # ... or the parameter itself (a graph or any collection of node ids)
+                    if isinstance(n.iter, ast.Name) and n.iter.id in params[1:]:
+                        ok = True
             if not ok:
                 continue
             calls_err = False
